@@ -246,7 +246,7 @@ func runC02(r *rt.Runner) {
 		}
 		for n := 0; n <= maxLen; n++ {
 			pool := full
-			if n >= 3 && r.Quick() {
+			if n >= 3 && r.Quick() && op.arity < 3 {
 				pool = reduced
 			}
 			idx := make([]int, n)
@@ -293,7 +293,7 @@ func runC02(r *rt.Runner) {
 	}
 
 	// (3) random programs over the data operators with an alias-stressing pool
-	nRand := r.N(20000, 1500000)
+	nRand := r.N(100000, 1500000)
 	for k := 0; k < nRand; k++ {
 		r.Case("random", func(c *rt.C) {
 			prog := genDataProgram(c, env, full)
